@@ -154,7 +154,7 @@ def main():
     ev_path = os.path.join(VERIF, "evidence_scratch" if (os.environ.get("VERIF_REPO") or os.environ.get("VERIF_EVIDENCE_SCRATCH")) else "evidence", "C20.json")
     if os.path.exists(ev_path):
         os.remove(ev_path)
-    bmc_len = int(os.environ.get("C20_BMC", {"quick": 3, "thorough": 8}[tier])) if tier in ("quick", "thorough") else 5
+    bmc_len = int(os.environ.get("C20_BMC", {"quick": 4, "thorough": 8}[tier])) if tier in ("quick", "thorough") else 5
     q_timeout = 900 if tier == "quick" else 3600
     results, problems, violations, notes = {}, [], [], []
     known_printed = set()
